@@ -2,6 +2,7 @@
 //! E-BFS over map-style and node-style updates on one element (with a second element as a source of
 //! nodes), reference = ordered Vec<(key, value, node)>; every accessor of both views after every step.
 use crate::common::*;
+use crate::atree::XML_NS;
 use crate::nsscope::{X, Y};
 use crate::xmlread::*;
 use rayon::prelude::*;
@@ -14,7 +15,9 @@ const AKEYS: [(&str, &str); 3] = [("", "a"), ("", "b"), (X, "c")];
 // the empty string is a value like any other (and equals the "value" of an absent key under unwrap_or_default)
 const AVALS: [&str; 2] = ["", "2"];
 const PKEYS: [&str; 3] = ["", "p", "q"];
-const PVALS: [&str; 2] = [X, Y];
+// the XML namespace as a value: no prefix but xml may be bound to it, so an entry like that can only be refused by
+// the serialiser, never dropped
+const PVALS: [&str; 3] = [X, Y, XML_NS];
 
 #[derive(Clone, Debug, Serialize, Deserialize, PartialEq, Eq, Hash)]
 pub enum Op {
@@ -592,6 +595,13 @@ fn all_ops() -> Vec<Op> {
             v.push(RemoveFn(attr, k));
             v.push(DetachNode(attr, k));
             v.push(RemoveNode(attr, k));
+        }
+        if !attr {
+            // a prefix bound to the XML namespace (map-style and node-style)
+            for k in 0..3u8 {
+                v.push(Insert(false, k, 2));
+                v.push(AppendFreshNode(false, k, 2));
+            }
         }
         v.push(Clear(attr));
         for i in 0..2u8 {
